@@ -89,6 +89,7 @@ package keeper
 //@      raw == (len(ownerOf(old(raw), provider)) == 0 ? r1[KOwner(provider) := enc_BytesValue(mkBytesValue(owner))][KOwnerProv(owner, provider) := emptyVal] : r1))
 //@ ensures error_changes_nothing: err != NoErr ==> raw == old(raw) && bal == old(bal)
 //@ requires a2_provider_present: len(provider) > 0
+//@ requires a2_owner_present: len(owner) > 0
 //@ ensures [C15] definitions_bindings_and_provider_owners_are_for_life: forLife(old(raw), raw)
 
 //@ func (Keeper).UpdateServiceBinding
@@ -310,7 +311,7 @@ package keeper
 
 //@ func (Keeper).WithdrawEarnedFees
 //@ vars (keeper.Keeper).WithdrawEarnedFees: k=github.com/irismod/service/keeper.Keeper#0 ctx=github.com/cosmos/cosmos-sdk/types.Context#0 owner=github.com/cosmos/cosmos-sdk/types.AccAddress#0 provider=github.com/cosmos/cosmos-sdk/types.AccAddress#1 providerOwner=github.com/cosmos/cosmos-sdk/types.AccAddress#2 ownerEarnedFees=github.com/cosmos/cosmos-sdk/types.Coins#0 found=bool#0 withdrawFees=github.com/cosmos/cosmos-sdk/types.Coins#1 earnedFees=github.com/cosmos/cosmos-sdk/types.Coins#2 found=bool#1 iterator=github.com/cosmos/cosmos-sdk/types.Iterator#0 provider=github.com/cosmos/cosmos-sdk/types.AccAddress#3 withdrawAddr=github.com/cosmos/cosmos-sdk/types.AccAddress#4
-//@ props C13 C05 C01
+//@ props C13 C05 C01 C18
 //@ modifies raw, bal
 //@ requires signer_address: len(owner) == 20
 //@ requires [C13] owner_total_covers_provider: forall d Str :: pfxSum(raw, POwnerEarned(owner), d) >= pfxSum(raw, PEarned(provider), d)
@@ -495,7 +496,7 @@ package keeper
 // ---------------------------------------------------------------- batch clean-up (C16)
 //@ func (Keeper).CleanBatch
 //@ vars (keeper.Keeper).CleanBatch: k=github.com/irismod/service/keeper.Keeper#0 ctx=github.com/cosmos/cosmos-sdk/types.Context#0 requestContext=github.com/irismod/service/types.RequestContext#0 requestContextID=github.com/tendermint/tendermint/libs/bytes.HexBytes#0 iterator=github.com/cosmos/cosmos-sdk/types.Iterator#0 requestID=[]byte#0
-//@ props C16
+//@ props C16 C18
 //@ modifies raw
 //@ loop 0 invariant pos_in_range: 0 <= iterator_pos && iterator_pos <= itCount(iterator_snap, iterator_pfx)
 //@ loop 0 invariant snapshot: iterator_snap == old(raw) && iterator_pfx == PReqByCtx(requestContextID, requestContext.BatchCounter)
@@ -547,12 +548,19 @@ package keeper
 // ---------------------------------------------------------------- gRPC queries (C17): each returns exactly the stored view
 //@ func (Keeper).GetOwnerServiceBindings
 //@ vars (keeper.Keeper).GetOwnerServiceBindings: k=github.com/irismod/service/keeper.Keeper#0 ctx=github.com/cosmos/cosmos-sdk/types.Context#0 owner=github.com/cosmos/cosmos-sdk/types.AccAddress#0 serviceName=string#0 store=github.com/cosmos/cosmos-sdk/types.KVStore#0 bindings=[]*github.com/irismod/service/types.ServiceBinding#0 iterator=github.com/cosmos/cosmos-sdk/types.Iterator#0 bindingKey=[]byte#0 sepIndex=int#0 serviceName=string#1 provider=github.com/cosmos/cosmos-sdk/types.AccAddress#1 binding=github.com/irismod/service/types.ServiceBinding#0 found=bool#0
-//@ props C17 C15
+//@ props C17 C15 C18
 //@ requires owner_address: len(owner) == 20
 //@ loop 0 invariant pos_in_range: 0 <= iterator_pos && iterator_pos <= itCount(iterator_snap, iterator_pfx)
 //@ loop 0 invariant snapshot: iterator_snap == raw && iterator_pfx == POwnerBind(owner, serviceName)
 //@ loop 0 invariant listed_so_far: bindings == ownerBindsIt(iterator_snap, iterator_pfx, iterator_pos)
+//@ loop 0 invariant one_binding_per_index_entry: WF(raw) ==> len(bindings) == iterator_pos && (forall j Int :: {bindings[j]} 0 <= j && j < iterator_pos ==>
+//@      bindings[j] == bindOf(raw, serviceName, kob_prov(itKey(raw, POwnerBind(owner, serviceName), j))) && bindFound(raw, serviceName, kob_prov(itKey(raw, POwnerBind(owner, serviceName), j))))
 //@ ensures [C17,C15] exactly_the_owners_bindings_of_the_service: result == ownerBindsIt(raw, POwnerBind(owner, serviceName), itCount(raw, POwnerBind(owner, serviceName)))
+//@ ensures [C15,C17] every_listed_binding_is_a_stored_binding_of_this_owner_and_service: WF(raw) ==> (forall j Int :: {result[j]} 0 <= j && j < len(result) ==>
+//@      result[j].Owner == owner && result[j].ServiceName == serviceName && bindFound(raw, serviceName, result[j].Provider) && result[j] == bindOf(raw, serviceName, result[j].Provider))
+//@ ensures [C15,C17] every_stored_binding_of_this_owner_and_service_is_listed_once: WF(raw) ==> len(result) == itCount(raw, POwnerBind(owner, serviceName)) &&
+//@      (forall p Bytes :: {raw[KBind(serviceName, p)]} bindFound(raw, serviceName, p) && bindOf(raw, serviceName, p).Owner == owner ==>
+//@        (let j := itIdx(raw, POwnerBind(owner, serviceName), KOwnerBind(owner, serviceName, p)) in 0 <= j && j < len(result) && result[j] == bindOf(raw, serviceName, p)))
 
 //@ func (Keeper).Definition
 //@ vars (keeper.Keeper).Definition: k=github.com/irismod/service/keeper.Keeper#0 c=context.Context#0 req=*github.com/irismod/service/types.QueryDefinitionRequest#0 ctx=github.com/cosmos/cosmos-sdk/types.Context#0 definition=github.com/irismod/service/types.ServiceDefinition#0 found=bool#0
@@ -603,7 +611,7 @@ package keeper
 
 //@ func (Keeper).RequestsByReqCtx
 //@ vars (keeper.Keeper).RequestsByReqCtx: k=github.com/irismod/service/keeper.Keeper#0 c=context.Context#0 req=*github.com/irismod/service/types.QueryRequestsByReqCtxRequest#0 ctx=github.com/cosmos/cosmos-sdk/types.Context#0 iterator=github.com/cosmos/cosmos-sdk/types.Iterator#0 requests=[]*github.com/irismod/service/types.Request#0 requestID=[]byte#0 request=github.com/irismod/service/types.Request#0
-//@ props C17
+//@ props C17 C18
 //@ requires in_range: 0 <= req.BatchCounter && req.BatchCounter <= 18446744073709551615
 //@ loop 0 invariant pos_in_range: 0 <= iterator_pos && iterator_pos <= itCount(iterator_snap, iterator_pfx)
 //@ loop 0 invariant snapshot: iterator_snap == raw && iterator_pfx == PReqByCtx(req.RequestContextId, req.BatchCounter)
@@ -692,7 +700,7 @@ package keeper
 
 //@ func queryRequestsByReqCtx
 //@ vars keeper.queryRequestsByReqCtx: ctx=github.com/cosmos/cosmos-sdk/types.Context#0 req=github.com/tendermint/tendermint/abci/types.RequestQuery#0 k=github.com/irismod/service/keeper.Keeper#0 legacyQuerierCdc=*github.com/cosmos/cosmos-sdk/codec.LegacyAmino#0 params=github.com/irismod/service/types.QueryRequestsByReqCtxParams#0 err=error#0 iterator=github.com/cosmos/cosmos-sdk/types.Iterator#0 requests=[]github.com/irismod/service/types.Request#0 requestID=[]byte#0 request=github.com/irismod/service/types.Request#0 bz=[]byte#1 err=error#1
-//@ props C17
+//@ props C17 C18
 //@ loop 0 invariant pos_in_range: 0 <= iterator_pos && iterator_pos <= itCount(iterator_snap, iterator_pfx)
 //@ loop 0 invariant snapshot: iterator_snap == raw && iterator_pfx == PReqByCtx(params.RequestContextID, params.BatchCounter)
 //@ loop 0 invariant listed_so_far: requests == reqsByKeyIt(iterator_snap, iterator_pfx, iterator_pos)
@@ -743,7 +751,7 @@ package keeper
 //@ func (Keeper).ResetRequestContextsStateAndBatch
 //@ vars (keeper.Keeper).ResetRequestContextsStateAndBatch: k=github.com/irismod/service/keeper.Keeper#0 ctx=github.com/cosmos/cosmos-sdk/types.Context#0
 //@ vars (keeper.Keeper).IterateRequestContexts: k=github.com/irismod/service/keeper.Keeper#0 ctx=github.com/cosmos/cosmos-sdk/types.Context#0 op=func#0 requestContextID=github.com/tendermint/tendermint/libs/bytes.HexBytes#0 requestContext=github.com/irismod/service/types.RequestContext#0 stop=bool#0 store=github.com/cosmos/cosmos-sdk/types.KVStore#0 iterator=github.com/cosmos/cosmos-sdk/types.Iterator#0 requestContextID=[]byte#0 requestContext=github.com/irismod/service/types.RequestContext#1 stop=bool#1
-//@ props C19
+//@ props C19 C18
 //@ modifies raw
 //@ loop IterateRequestContexts.0 invariant pos_in_range: 0 <= iterator_pos && iterator_pos <= itCount(iterator_snap, iterator_pfx)
 //@ loop IterateRequestContexts.0 invariant snapshot: iterator_snap == old(raw) && iterator_pfx == PAllCtx
